@@ -162,6 +162,9 @@ func (w *world) diffChannel(h handles, c *simChan, st *mstate, level int, tp *si
 		}
 		seenKey[k] = m.MessageSeq
 	}
+	if _, inCatalog, err := h.db.engine.Get(encodeCatalogKey(c.key)); err != nil || inCatalog != st.catalog {
+		return mm("state-mismatch", "catalog", "catalog entry of %s present=%v err=%v, model present=%v", c.key, inCatalog, err, st.catalog)
+	}
 	cp, hasCP, err := h.log.LoadCheckpoint(ctx)
 	if err != nil || hasCP != st.hasCP || (hasCP && cp != st.cp) {
 		return mm("state-mismatch", "checkpoint", "LoadCheckpoint(%s) = %+v %v %v, model %+v %v", c.key, cp, hasCP, err, st.cp, st.hasCP)
